@@ -83,6 +83,8 @@ impl SixelParser {
     }
 
     fn parse_char(&mut self, ch: char) -> EngineResult<bool> {
+        #[cfg(icy_engine_verif)]
+        crate::verif_hooks::tick(1);
         match self.state {
             SixelState::Read => {
                 self.parse_sixel_data(ch)?;
